@@ -313,6 +313,24 @@ def gen_c04(rng, n, prefix="s"):
     finally:
         FULL["on"] = False
 
+def gen_c05(rng, n, prefix="d"):
+    """observing handlers of every kind (element handlers attaching end-tag handlers, comment/text handlers per selector and per document)"""
+    for i in range(n):
+        r = rng.randrange(10)
+        data = l2_doc(rng) if r < 6 else (tagsoup(rng) if r < 9 else doc(rng, 8))
+        toks = []
+        for _ in range(rng.choice([1, 2, 3, 4])):
+            css, st = gen_selector(rng)
+            if rng.randrange(3) == 0: css, st = rng.choice([("*", "A"), ("div", "T" + hx("div")), ("p", "T" + hx("p")), ("span, a", "T%s|T%s" % (hx("span"), hx("a"))), ("div *", "T%s_A" % hx("div"))])
+            el = rng.choice(["-", "", "oe:()", "oe:(),oe:()", "oe:()"])
+            cm = rng.choice(["-", "", ""]); tx = rng.choice(["-", "a:", "l:", "n:"])
+            if el == "-" and cm == "-" and tx == "-": tx = "a:"
+            toks.append("sel=%s~%s~%s~%s~%s" % (hx(css), st, el, cm, tx))
+        for _ in range(rng.choice([0, 1, 1, 2])):
+            toks.append("doc=%s~%s~%s~%s" % (rng.choice(["-", ""]), rng.choice(["-", ""]), rng.choice(["-", "a:"]), rng.choice(["-", "", "h" + hx("<!--e-->")])))
+        ch = chunkings(rng, data)
+        yield "L2 %s%d isz=104 strict=0 %s ops=%s" % (prefix, i, " ".join(toks), ",".join(["W" + c.hex() for c in ch] + ["E"]))
+
 def gen_l2(rng, n, profile, prefix):
     isz = int(open('/verif/build/itemsize.txt').read().strip()) if __import__('os').path.exists('/verif/build/itemsize.txt') else 104
     for i in range(n):
@@ -452,6 +470,8 @@ def main():
         for l in gen_pairs(rng, max(1, n // 4)): print(l)
     elif fam == "mem":
         for l in gen_mem(rng, max(1, n // 10)): print(l)
+    elif fam == "c05":
+        for l in gen_c05(rng, n): print(l)
     elif fam == "c04":
         for l in gen_c04(rng, n): print(l)
     elif fam == "l1fail":
